@@ -1082,6 +1082,8 @@ class Container:
         total_quantity = kwargs.get('total_quantity', None)
 
         original_solvent = solvent
+        # what one mole of the solvent brings along of each solute (a solvent container may already hold some)
+        carried = [0.] * len(solute)
         if isinstance(solvent, Container):
             # Calculate mol_weight and density of solvent
             # get total mass of solvent
@@ -1093,6 +1095,9 @@ class Container:
             total_volume = solvent.get_volume('mL')
             if total_moles == 0 or total_volume == 0:
                 raise ValueError("Solvent must contain a non-zero amount of substance.")
+            stored_moles = sum(amount for substance, amount in solvent.contents.items() if not substance.is_enzyme())
+            carried = [solvent.contents.get(substance, 0) / (total_moles if substance.is_enzyme() else stored_moles)
+                       for substance in solute]
             # mol_weight = g/mol, density = g/mL
             solvent = Substance.liquid('fake solvent',
                                        mol_weight=total_mass / total_moles, density=total_mass / total_volume)
@@ -1143,6 +1148,7 @@ class Container:
 
                 # c = top/bottom
                 a[index] = c * bottom - numpy.roll(identity, i) * convert_one(substance, numerator)
+                a[index][n] -= carried[i] * convert_one(substance, numerator)
                 index += 1
 
         if quantity is not None:
@@ -1159,6 +1165,7 @@ class Container:
                     raise TypeError("Quantity(s) must be a str.")
                 q, unit = Unit.parse_quantity(q)
                 a[index] = numpy.roll(identity, i) * convert_one(substance, unit)
+                a[index][n] += carried[i] * convert_one(substance, unit)
                 b[index] = q
                 index += 1
 
